@@ -118,10 +118,17 @@ def step_harness(profiles, features=()):
     if not os.path.exists(lock) and os.path.exists(os.path.join(REPO, "Cargo.lock")):
         shutil.copy(os.path.join(REPO, "Cargo.lock"), lock)
     for prof in profiles:
-        cmd = ["cargo", "build", "--offline"] + (["--release"] if prof == "release" else [])
+        env = None
+        if prof == "asan":
+            # release-mode AddressSanitizer build (nightly; works offline): a failing-input detector for C01's thorough tier
+            cmd = ["cargo", "+nightly", "build", "--offline", "--release", "--target", "x86_64-unknown-linux-gnu",
+                   "--target-dir", os.path.join(CACHE, "target_asan")]
+            env = dict(ENV, RUSTFLAGS="-Zsanitizer=address")
+        else:
+            cmd = ["cargo", "build", "--offline"] + (["--release"] if prof == "release" else [])
         if features:
             cmd += ["--features", ",".join(features)]
-        rc, out = sh(cmd, cwd=HARNESS)
+        rc, out = sh(cmd, cwd=HARNESS, env=env)
         if rc != 0:
             ok = False
             log += out[-3000:]
